@@ -134,9 +134,9 @@ PROPS = {
             'lens': [(['r', 'o', 'e'], S('call:ping', 'frame:PING'))]},
     'C27': {'scenarios': scen('CloseS MiscS MiscC LifeS HdrInS PushC RawS', ['P_C27_ClosedMemoryBounded', 'P_C27_NoStateForNonOpeningFrames']),
             'lens': [(['z.streams', 'z.closed', 'z.pend', 'z.hb'], ANY), (['r', 'o'], S('frame:HEADERS', 'frame:PP', 'frame:CONT', 'frame:RAW'))]},
-    'C28': {'scenarios': [dict(s, hashseeds=True) for s in scen('Pair1 SetS MiscC HdrInS', [])],
+    'C28': {'scenarios': [dict(s, hashseeds=True) for s in scen('Pair1 SetS MiscC HdrInS HdrInC', [])],
             'lens': [(ALL_PUBLIC, ANY)]},
-    'C29': {'scenarios': scen('LifeS LifeC MiscC MiscS CloseS SetS FlowS BigC BigS UpgS', GENERIC),
+    'C29': {'scenarios': scen('LifeS LifeC MiscC MiscS CloseS SetS FlowS BigC BigS UpgS PushS', GENERIC),
             'lens': [(['r', 'o'], S('call'))]},
 }
 
